@@ -179,6 +179,43 @@ fn engine_big(terms: &[Term], checks: u32, tier: Tier, kernels: &[&str]) -> Vec<
     out
 }
 
+/// very long inputs (400 000 elements; thorough also 2 300 000) under one base schedule: element-count and
+/// byte-size thresholds of "long input" / "large buffer" paths (per-worker buffers, fragment reservations, eager
+/// spawning) that sit at powers of two up to 2^17 per worker (thorough: 2^20). Variants: everything survives
+/// (largest per-worker buffers) and the alternating masks / mixed expansions.
+fn engine_huge(terms: &[Term], checks: u32, tier: Tier, kernels: &[&str]) -> Vec<Item> {
+    let th = tier == Tier::Thorough;
+    let mut out = Vec::new();
+    let ns: &[usize] = if th { &[400_000, 2_300_000] } else { &[400_000] };
+    for ch in kernels {
+        let cid = chains::CHAINS.iter().position(|c| c == ch).unwrap();
+        for t in terms {
+            for n in ns {
+                for (src, known, nt, cs) in [
+                    (Src::SVec, true, NtSet::Max(2), CsSet::Keep),
+                    (Src::SVec, true, NtSet::Max(3), CsSet::N(1024)),
+                    (Src::SIter, false, NtSet::Max(2), CsSet::N(512)),
+                ] {
+                    if !src.supports(cid) {
+                        continue;
+                    }
+                    let mut c = case(src, 0, ch, *t);
+                    c.input = (0..*n).map(|i| i as u8).collect();
+                    c.known = known;
+                    c.nt[0] = nt;
+                    c.cs[0] = cs;
+                    // the only match is close to the end: short-circuit terminals scan (almost) everything
+                    c.pred_pos = [(*n - 7) as u32, u32::MAX];
+                    for mc in mask_variants(&c, false) {
+                        out.push(item(mc, Plan::base_rr().with_horizon(4_000_000), checks));
+                    }
+                }
+            }
+        }
+    }
+    out
+}
+
 /// many workers and a slow spawner: workers are spawned after the first lag period, `Min` chunk sizes grow
 /// (the spawner's view of the remaining length depends on how far the first workers got)
 fn engine_lag(terms: &[Term], checks: u32, tier: Tier, kernels: &[&str]) -> Vec<Item> {
@@ -365,14 +402,16 @@ fn is_lite(cid: usize) -> bool {
 fn term_ok(src: Src, cid: usize, t: Term) -> bool {
     let tok_items = matches!(
         src,
-        Src::SVec | Src::SIter | Src::PVec | Src::PIter | Src::PDeque | Src::PList | Src::PBTree | Src::PHeap | Src::PHash | Src::PConVec | Src::PConIter | Src::PConIterPar
+        Src::SVec | Src::SIter | Src::PVec | Src::PIter | Src::PDeque | Src::PList | Src::PBTree | Src::PHeap | Src::PHash | Src::PConVec | Src::PConVecPre | Src::PConIter | Src::PConIterPar | Src::PConIterPre | Src::PConIterParPre
     );
+    // positions reported for a source that was partly consumed beforehand are not defined by the property
+    let pre = matches!(src, Src::PConVecPre | Src::PConSlicePre | Src::PConRangePre | Src::PConIterPre | Src::PConIterParPre);
     let adaptor = matches!(src, Src::PClonedAd | Src::PCopiedAd | Src::PClonedIt);
     if t.needs_tok() {
         return tok_items && chains::TOK_SUBSET.contains(&cid);
     }
     if matches!(t, Term::FindIdx | Term::FirstIdx) {
-        return chains::INFO[cid].3 && !is_lite(cid) && !adaptor;
+        return chains::INFO[cid].3 && !is_lite(cid) && !adaptor && !pre;
     }
     if is_lite(cid) {
         return LITE_TERMS.contains(&t);
@@ -550,6 +589,7 @@ pub fn items(prop: &str, tier: Tier) -> Vec<Item> {
             out.extend(engine_lag(&[Term::CollectVec, Term::Collect], CK_RESULT, tier, &KC[1..]));
             out.extend(expansion_sweep(&[Term::CollectVec], CK_RESULT, tier, false));
             out.extend(engine_big(&[Term::CollectVec, Term::Collect], CK_RESULT, tier, &KC4));
+            out.extend(engine_huge(&[Term::CollectVec, Term::Collect], CK_RESULT, tier, &KC4));
             out.extend(engine_fine(&[Term::CollectVec, Term::Collect], CK_RESULT, tier, &KC4));
             out.extend(engine_e(&[Term::CollectVec, Term::Collect, Term::IntoVec], CK_RESULT, tier, &[], &[]));
         }
@@ -605,6 +645,7 @@ pub fn items(prop: &str, tier: Tier) -> Vec<Item> {
             out.extend(engine_lag(&[Term::Find], CK_RESULT, tier, &["", "M", "MF", "OF", "XF"]));
             out.extend(expansion_sweep(&[Term::First, Term::Find, Term::Any], CK_RESULT, tier, false));
             out.extend(engine_big(&[Term::Find, Term::FindIdx], CK_RESULT, tier, &["", "M", "MF", "OF", "XF"]));
+            out.extend(engine_huge(&[Term::Find, Term::FindIdx, Term::All], CK_RESULT, tier, &["", "MF", "OF", "XF"]));
             out.extend(engine_fine(&[Term::Find, Term::First, Term::Any, Term::FindIdx], CK_RESULT, tier, &["", "M", "MF", "OF", "XF"]));
             // chunks of thousands of elements, sparse matches given by position, a preemption right after a pull:
             // closure entries are scheduling points only for the first two calls of each thread
@@ -734,6 +775,7 @@ pub fn items(prop: &str, tier: Tier) -> Vec<Item> {
             out.extend(engine_lag(&[Term::Reduce], CK_RESULT, tier, &KC));
             out.extend(expansion_sweep(&[Term::Reduce], CK_RESULT, tier, false));
             out.extend(engine_big(&[Term::Reduce], CK_RESULT, tier, &["", "M", "MF", "OF", "XF"]));
+            out.extend(engine_huge(&[Term::Reduce], CK_RESULT, tier, &["", "MF", "OF", "XF"]));
             out.extend(engine_fine(&[Term::Reduce], CK_RESULT, tier, &["", "M", "MF", "OF", "XF"]));
             out.extend(engine_e(&[Term::Reduce], CK_RESULT, tier, &[], &[0, 1, 2, 3]));
         }
@@ -744,6 +786,7 @@ pub fn items(prop: &str, tier: Tier) -> Vec<Item> {
             out.extend(engine_lag(&[Term::Count], CK_RESULT, tier, &KC));
             out.extend(expansion_sweep(&[Term::Count, Term::ForEach], CK_RESULT, tier, false));
             out.extend(engine_big(&[Term::Count], CK_RESULT, tier, &["", "M", "MF", "OF", "XF"]));
+            out.extend(engine_huge(&[Term::Count, Term::ForEach], CK_RESULT, tier, &["M", "MF", "OF", "XF"]));
             out.extend(engine_fine(&[Term::Count, Term::ForEach], CK_RESULT, tier, &["", "M", "MF", "OF", "XF"]));
             out.extend(engine_e(&[Term::Count, Term::ForEach], CK_RESULT, tier, &[], &[]));
         }
@@ -755,6 +798,7 @@ pub fn items(prop: &str, tier: Tier) -> Vec<Item> {
             out.extend(engine_s(&full_visit, ck, tier, &kernels, false));
             out.extend(engine_s(&[Term::Find, Term::Any], ck, tier, &["", "M", "MF", "OF", "XF"], false));
             out.extend(engine_lag(&[Term::CollectVec, Term::Count, Term::Reduce], ck, tier, &["M", "MF", "OF", "XF"]));
+            out.extend(engine_huge(&[Term::CollectVec, Term::Count, Term::CollectX], ck, tier, &["M", "MF", "XF"]));
             out.extend(engine_fine(&[Term::CollectVec, Term::Count, Term::Reduce, Term::CollectX, Term::Find], ck, tier, &["M", "MF", "OF", "XF"]));
             out.extend(engine_e(&[Term::CollectVec, Term::Count, Term::Reduce, Term::CollectX, Term::Find], ck, tier, &[0b0100, 0], &[0]));
             // exclusivity: scheduling points *inside* the source iterator's next()
@@ -842,6 +886,22 @@ pub fn items(prop: &str, tier: Tier) -> Vec<Item> {
                     }
                 }
             }
+            // very long inputs into a non-empty target: capacity / fragment reservations of the targets (the
+            // reservation for a source of unknown length is made before the workers start)
+            for t in targets {
+                for (ch, src, known, n) in [("M", Src::SIter, false, 700_000usize), ("M", Src::SVec, true, 400_000), ("MF", Src::SIter, false, 400_000), ("XF", Src::SVec, true, 400_000)] {
+                    if !th && t == Term::IntoSplitL && ch != "M" {
+                        continue;
+                    }
+                    let mut c = case(src, 0, ch, t);
+                    c.input = (0..n).map(|i| i as u8).collect();
+                    c.known = known;
+                    c.nt[0] = NtSet::Max(2);
+                    c.cs[0] = CsSet::N(1024);
+                    c.prefix = 3;
+                    out.push(item(c, Plan::base_rr().with_horizon(4_000_000), CK_RESULT));
+                }
+            }
             // offset writes of the map-only kernel, every interleaving
             for t in targets {
                 for cs in [CsSet::N(1), CsSet::N(2)] {
@@ -878,6 +938,7 @@ pub fn items(prop: &str, tier: Tier) -> Vec<Item> {
             out.extend(engine_lag(&[Term::CollectX], CK_RESULT, tier, &KC));
             out.extend(expansion_sweep(&[Term::CollectX], CK_RESULT, tier, false));
             out.extend(engine_big(&[Term::CollectX], CK_RESULT, tier, &["M", "MF", "OF", "XF"]));
+            out.extend(engine_huge(&[Term::CollectX], CK_RESULT, tier, &["M", "MF", "OF", "XF"]));
             out.extend(engine_fine(&[Term::CollectX], CK_RESULT, tier, &KC));
             out.extend(engine_e(&[Term::CollectX], CK_RESULT, tier, &[], &[]));
         }
@@ -955,6 +1016,22 @@ pub fn items(prop: &str, tier: Tier) -> Vec<Item> {
                                 out.push(item(c, Plan::db(2).with_cap(30_000), ck));
                             }
                         }
+                    }
+                }
+            }
+            // very long inputs: spawning decisions that look at the input length
+            for (ch, t) in &progs[..4] {
+                for n in [2usize, 3] {
+                    for (src, known) in [(Src::SVec, true), (Src::SIter, false)] {
+                        if !th && src == Src::SIter && n == 3 {
+                            continue;
+                        }
+                        let mut c = case(src, 0, ch, *t);
+                        c.input = (0..400_000usize).map(|i| i as u8).collect();
+                        c.known = known;
+                        c.nt[0] = NtSet::Max(n);
+                        c.cs[0] = CsSet::N(1024);
+                        out.push(item(c, Plan::base_rr().with_horizon(4_000_000), ck | CK_RESULT));
                     }
                 }
             }
@@ -1115,6 +1192,63 @@ pub fn items(prop: &str, tier: Tier) -> Vec<Item> {
                         c.pmask = if t == Term::All { !pm } else { pm };
                         for mc in mask_variants(&c, false) {
                             out.push(item(mc, Plan::base_np(), ck));
+                        }
+                    }
+                }
+            }
+            // lazily produced flat_map expansions (a child exists only once `next()` asked for it), finite and endless:
+            // the search stops *at* the match - an expansion that never ends always holds one. Sequential mode: exactly
+            // the children a lazy std chain asks for; parallel mode: every worker ends (bounded-fair interleavings).
+            for (src, cid) in all_units() {
+                let ch = chains::CHAINS[cid];
+                let nx = flatmaps_in(ch).len();
+                if nx == 0 || chains::INFO[cid].2 != 0 || !matches!(src, Src::SVec | Src::SIter | Src::PVec | Src::PIter | Src::PVecRef) {
+                    continue;
+                }
+                for t in [Term::Find, Term::First, Term::Any, Term::All] {
+                    if !term_ok(src, cid, t) {
+                        continue;
+                    }
+                    for mode in [1u8, 2] {
+                        if mode == 2 && nx > 2 {
+                            continue;
+                        }
+                        for pm in [1u64, 0b10, 0b1000, 0b0110, 1 << 40] {
+                            let mut c = case(src, 4, ch, t);
+                            c.nt[0] = NtSet::N(1);
+                            c.pmask = if t == Term::All { !pm } else { pm };
+                            c.exp_mode = mode;
+                            for mc in mask_variants(&c, false) {
+                                if mode == 2 && mc.expand != c.expand {
+                                    continue; // the expansion vector is not used by endless expansions
+                                }
+                                out.push(item(mc, Plan::base_np(), ck));
+                            }
+                        }
+                    }
+                }
+            }
+            for ch in ["X", "XF", "XM", "MX", "FX", "OX", "XX", "XO"] {
+                let cid = chains::CHAINS.iter().position(|c| *c == ch).unwrap();
+                if chains::INFO[cid].2 != 0 {
+                    continue;
+                }
+                for t in [Term::Find, Term::First, Term::Any, Term::All] {
+                    for mode in [1u8, 2] {
+                        for cs in [CsSet::N(1), CsSet::N(2)] {
+                            for pm in [1u64 << 1, 1 << 5, 1 << 40] {
+                                for (src, known) in [(Src::SVec, true), (Src::SIter, false)] {
+                                    let mut c = par(case(src, 4, ch, t), 2, cs);
+                                    c.known = known;
+                                    c.pmask = if t == Term::All { !pm } else { pm };
+                                    c.exp_mode = mode;
+                                    out.push(item(c.clone(), fair(Plan::pb(2), 2), ck));
+                                    let mut c3 = c.clone();
+                                    c3.nt[0] = NtSet::Max(3);
+                                    c3.input = (0..6).collect();
+                                    out.push(item(c3, fair(Plan::db(2), 3), ck));
+                                }
+                            }
                         }
                     }
                 }
@@ -1356,6 +1490,7 @@ pub fn items(prop: &str, tier: Tier) -> Vec<Item> {
             ));
             out.extend(engine_lag(&[Term::CollectVec, Term::CollectX, Term::Find], ck, tier, &["M", "MF", "XF"]));
             out.extend(engine_big(&[Term::CollectVec, Term::Collect, Term::Find], ck, tier, &["MF", "XF"]));
+            out.extend(engine_huge(&[Term::CollectVec, Term::Collect, Term::CollectX, Term::IntoSplitD, Term::Reduce, Term::Find], ck, tier, &["M", "MF", "OF", "XF"]));
             out.extend(engine_fine(&[Term::CollectVec, Term::CollectX, Term::Find, Term::Reduce], ck, tier, &["M", "MF", "OF", "XF"]));
             // eager (materialising) chains and deeper chains, sequential and parallel
             for cid in 0..chains::N_CHAINS {
